@@ -28,8 +28,8 @@ RULE = ("(1) enumerated: parameter grid min runtime 0..4 x min downtime 0..4 x i
         "transition); (2)/(3) pattern or solution contains a transition and a ramp, runtime or downtime limit is "
         "binding or violated by the candidate. Distinct = distinct spec hash.")
 ASSUMPTIONS = ["durations are drawn at half-step offsets so EAO's ceil() conversion to steps is unambiguous",
-               "start/shutdown profiles exact (lower = upper) and monotone; uniform step length; ramp_freq = grid freq",
-               "off before the horizon implies last_dispatch = 0; running before implies min <= last dispatch <= max",
+               "start/shutdown profiles monotone, exact (upper omitted or equal) or a band [lower, upper], as lists or float arrays; uniform step length; ramp_freq = grid freq",
+               "off before the horizon implies last_dispatch = 0; running before implies min <= last dispatch <= max; profile values within [0, max capacity]",
                "Plant/CHP wacc = 0 (EAO does not discount running and start costs)",
                "scipy-HiGHS milp (presolve off) decides feasibility of EAO's rows; SCIP solves EAO's MIP end to end"]
 SHRINK_BUDGET = {"quick": 150, "thorough": 600}
@@ -188,32 +188,40 @@ def _unit(draw, gv, T, profiles=False, allow_fuel=True):
         a["fuel_efficiency"] = draw(st.sampled_from([1.0, 0.5, 0.75]))
         a["consumption_if_on"] = draw(st.sampled_from([0.0, 0.25])) / dt0
         a["start_fuel"] = draw(st.sampled_from([0.0, 1.0]))
+    # parameters with a documented default given as interval data that cover only part of the horizon
+    for key in ("consumption_if_on", "start_fuel", "running_costs", "start_costs"):
+        if key in a and a[key] and draw(st.integers(0, 3)) == 0:
+            cut = draw(st.integers(1, max(1, T - 1)))
+            a[key] = {"iv": [[cut, T + 50, a[key]]] if draw(st.booleans()) else [[-50, cut, a[key]]]}
     if profiles and minq > 0:
         # exact, monotone profiles below the minimum capacity
-        if draw(st.booleans()):
+        # profiles: exact (upper bounds omitted = documented default, or given equal) or a band [lower, upper];
+        # as lists or float arrays
+        a["profile_form"] = draw(st.sampled_from(["list", "list", "array"]))
+        for which, key, pool in (("start", "SRT", [0.5, 0.75, 1.0, 1.0]), ("shutdown", "SDT", [0.25, 0.5, 0.75, 1.0])):
+            if not draw(st.booleans()):
+                continue
             n = draw(st.integers(1, 2))
-            vals = sorted(draw(st.lists(st.sampled_from([0.5, 0.75, 1.0, 1.0]), min_size=n, max_size=n)))
-            a["start_ramp_lower_bounds"] = [v * minq / dt0 for v in vals]
-            a["start_ramp_upper_bounds"] = [v * minq / dt0 for v in vals]
-            meta["SRT"] = n
-            meta["start_prof"] = [v * minq for v in vals]
-        if draw(st.booleans()):
-            n = draw(st.integers(1, 2))
-            vals = sorted(draw(st.lists(st.sampled_from([0.25, 0.5, 0.75, 1.0]), min_size=n, max_size=n)))
-            a["shutdown_ramp_lower_bounds"] = [v * minq / dt0 for v in vals]
-            a["shutdown_ramp_upper_bounds"] = [v * minq / dt0 for v in vals]
-            meta["SDT"] = n
-            meta["shut_prof"] = [v * minq for v in vals]
+            vals = sorted(draw(st.lists(st.sampled_from(pool), min_size=n, max_size=n)))
+            band = draw(st.sampled_from([0.0, 0.0, 0.0, 0.25]))
+            cap_ = min(meta.get("max_series") or [maxq])
+            his = [min((v + band) * minq, cap_) for v in vals]     # profiles stay within the capacity
+            a["%s_ramp_lower_bounds" % which] = [v * minq / dt0 for v in vals]
+            if band or draw(st.booleans()):
+                a["%s_ramp_upper_bounds" % which] = [h / dt0 for h in his]
+            meta[key] = n
+            meta["start_prof" if which == "start" else "shut_prof"] = \
+                [v * minq if not band else [v * minq, h] for v, h in zip(vals, his)]
     if meta["SRT"] or meta["SDT"]:
         a["ramp_freq"] = g["freq"]      # profiles are given per grid step
         if draw(st.booleans()):
             # ramps around the profile values (so that 'profile takes precedence' decides)
             pool = []
             if meta["SRT"]:
-                sp_ = meta["start_prof"]
+                sp_ = [uc.prof_range(x)[0] for x in meta["start_prof"]]
                 pool += [minq - sp_[-1], minq - sp_[-1] + 0.5, sp_[0] - 0.25, sp_[0]]
             if meta["SDT"]:
-                sh_ = meta["shut_prof"]
+                sh_ = [uc.prof_range(x)[0] for x in meta["shut_prof"]]
                 pool += [minq - sh_[-1], sh_[0], sh_[0] - 0.25]
             pool = [x for x in pool if x > 0]
             if pool:
@@ -306,6 +314,8 @@ def series_of(a, key, T, default):
         out = np.full(T, np.nan)
         for s, e, val in v["iv"]:
             out[max(0, s):min(T, e)] = val
+        if default is not None:
+            out[np.isnan(out)] = default      # documented default where the interval data are silent
         return out
     return np.full(T, float(v))
 
@@ -376,19 +386,19 @@ def check_e2e(spec, out):
     for msg in uc.point_violations(p, on, v, heat, power, tol=tol):
         out.fail("returned solution: " + msg)
     trans = uc.transitions(on, m["tar"] > 0) if vs["on"] is not None else []
-    sc = a.get("start_costs", 0.0)
-    sf = a.get("start_fuel", 0.0) if "nf" in a["nodes"] else 0.0
+    scv = series_of(a, "start_costs", T, 0.0)
+    sfv = series_of(a, "start_fuel", T, 0.0) if "nf" in a["nodes"] else np.zeros(T)
+    sc = float(scv.max())
     start = np.zeros(T, int)
     if vs["st"] is not None:
         start = np.round(x[vs["st"]]).astype(int)
         for t in trans:
             if start[t] != 1:
                 out.fail("no start flagged at the off->on transition at step %d (on=%s start=%s)" % (t, list(on), list(start)))
-        if sc > 0 or sf > 0:
-            for t in range(T):
-                if start[t] == 1 and t not in trans:
-                    out.fail("start flagged (and charged) at step %d without off->on transition (on=%s)" % (t, list(on)))
-    elif trans and (sc > 0 or sf > 0):
+        for t in range(T):
+            if start[t] == 1 and t not in trans and (scv[t] > 0 or sfv[t] > 0):
+                out.fail("start flagged (and charged) at step %d without off->on transition (on=%s)" % (t, list(on)))
+    elif any(scv[t] > 0 or sfv[t] > 0 for t in trans):
         out.fail("start costs / start fuel given but the problem has no start variables")
     # fuel identity from the reported dispatch
     o = r.output()
@@ -398,7 +408,7 @@ def check_e2e(spec, out):
         col = build.disp_col(spec, a["name"], "nf")
         eff = series_of(a, "fuel_efficiency", T, 1.0)
         cons = series_of(a, "consumption_if_on", T, 0.0)
-        exp = -(v / eff + cons * dtv * (on if vs["on"] is not None else 0) + sf * start)
+        exp = -(v / eff + cons * dtv * (on if vs["on"] is not None else 0) + sfv * start)
         got = o["dispatch"][col].values.astype(float)
         if np.abs(got - exp).max() > 10 * tol:
             t = int(np.argmax(np.abs(got - exp)))
@@ -464,8 +474,8 @@ def check_point(spec, out):
             val = 0.0 if c < 10 else eps
             deviations += c >= 10
         elif r is not None:
-            prof = (p["start_prof"] if r[0] == "start" else p["shut_prof"])[r[1]]
-            val = {9: prof + eps, 10: max(0.0, prof - eps), 11: lo}.get(c, prof)
+            plo, phi = uc.prof_range((p["start_prof"] if r[0] == "start" else p["shut_prof"])[r[1]])
+            val = {9: phi + eps, 10: max(0.0, plo - eps), 11: lo, 0: plo, 1: phi, 2: (plo + phi) / 2}.get(c, plo if c % 2 else phi)
             deviations += c >= 9
         else:
             L, U = lo, hi
